@@ -22,6 +22,11 @@ type MergeCase struct {
 	Hist      History     `json:"hist"`
 	MergeCfgs []EngCfg    `json:"mergecfgs"`
 	Queries   []QuerySpec `json:"queries"`
+	// FileRel[i] = {a, b, delta}: merge i runs with MaxFileSize = size(file a) +
+	// size(file b) + delta, sizes being the files' sums of on-disk block sizes
+	// right before that merge (sorted ascending, indices modulo the file count):
+	// the limit sits exactly at, or one byte under, what two real files add up to
+	FileRel [][3]int `json:"filerel,omitempty"`
 }
 
 func genMergeCase() *rapid.Generator[MergeCase] {
@@ -63,6 +68,12 @@ func genMergeCase() *rapid.Generator[MergeCase] {
 			}
 			cfgs = append(cfgs, c)
 		}
+		var rel [][3]int
+		if chance(t, "filerel", 35) {
+			for range cfgs {
+				rel = append(rel, [3]int{rapid.IntRange(0, 5).Draw(t, "rela"), rapid.IntRange(0, 5).Draw(t, "relb"), pick(t, "reldelta", []int{-1, 0, -1, 0, 40})})
+			}
+		}
 		rows := simulateRows(h)
 		pools := buildPools(rows)
 		nq := rapid.IntRange(1, 8).Draw(t, "nqueries")
@@ -75,7 +86,7 @@ func genMergeCase() *rapid.Generator[MergeCase] {
 			}
 			qs[i] = drawQuery(t, qp, true)
 		}
-		return MergeCase{Hist: h, MergeCfgs: cfgs, Queries: qs}
+		return MergeCase{Hist: h, MergeCfgs: cfgs, Queries: qs, FileRel: rel}
 	})
 }
 
@@ -92,17 +103,37 @@ func execMergeCase(c MergeCase) (*World, []mergeObsFull, *Violation) {
 		return nil, nil, violf("history failed on healthy stores: %v", err)
 	}
 	var obs []mergeObsFull
-	for _, cfg := range c.MergeCfgs {
+	for mi, cfg := range c.MergeCfgs {
 		tr := NewTrace(w.Data, w.Meta)
-		eng, err := w.NewEngine(cfg, tr, tr)
-		if err != nil {
-			w.Close()
-			return nil, nil, violf("engine construction failed: %v", err)
-		}
 		before, err := ReadWorld(w.Data, w.Meta)
 		if err != nil {
 			w.Close()
 			return nil, nil, violf("world unreadable before merge: %v", err)
+		}
+		if mi < len(c.FileRel) && len(before) >= 2 {
+			var sizes []int
+			for _, f := range before {
+				t := 0
+				for _, b := range f.Blocks {
+					t += b.Meta.OnDiskSize()
+				}
+				sizes = append(sizes, t)
+			}
+			sort.Ints(sizes)
+			r := c.FileRel[mi]
+			a, b := r[0]%len(sizes), r[1]%len(sizes)
+			if a == b {
+				b = (b + 1) % len(sizes)
+			}
+			if lim := sizes[a] + sizes[b] + r[2]; lim >= 1 {
+				cfg.MaxFileSize = lim
+				Ev.Class("merge:MaxFileSize-set-at-a-real-pair-boundary")
+			}
+		}
+		eng, err := w.NewEngine(cfg, tr, tr)
+		if err != nil {
+			w.Close()
+			return nil, nil, violf("engine construction failed: %v", err)
 		}
 		r1, v := runQueries(eng, tr, c.Queries)
 		if v != nil {
